@@ -815,15 +815,16 @@ def main():
     # B1: 3x3 over {-1,0,1,2}: all (thorough) or a sample (quick); also all 2x2
     vals = (-1, 0, 1, 2)
     space3 = list(itertools.product(vals, repeat=9))
-    if not T:
-        space3 = rng.sample(space3, 5000)
+    # (all 262144 3x3 matrices gave 1.1 million judge queries: more than the extracted checkers answer in the budget; a sample of
+    # 40000 in the thorough tier, every 2x2 matrix in both tiers)
+    space3 = rng.sample(space3, 40000 if T else 5000)
     small = [[[F(t[0]), F(t[1])], [F(t[2]), F(t[3])]] for t in itertools.product(vals, repeat=4)]
     small += [[[F(t[3 * i + j]) for j in range(3)] for i in range(3)] for t in space3]
     for k, A in enumerate(small):
         comp.append(component_static("x%d" % k, rng, A, ["17", str(rng.choice([2, 25]))] if k % 2 else [], 6))
     n_exh = len(comp)
     # B2: structured matrices
-    nstruct = 1500 if T else 140
+    nstruct = 600 if T else 140
     for k in range(nstruct):
         n = rng.choice([2, 3, 4, 5, 6, 8, 10, 12, 16, 24, 30, 40] + ([60, 80] if T else []))
         kind, A = structured_matrix(rng, n)
@@ -855,7 +856,7 @@ def main():
         c.kind = "dense-int-singular"
         comp.append(c)
     # B3: update histories
-    nhist = 3000 if T else 300
+    nhist = 1200 if T else 300
     for k in range(nhist):
         n = rng.choice([2, 3, 4, 5, 6, 8, 10, 14, 22] + ([30, 45] if T else []))
         for _ in range(20):
@@ -871,7 +872,7 @@ def main():
         c.kind = "hist-" + kind
         comp.append(c)
     # B3': sparse 0/+-1 histories of dimension 45..80: the sparse path of ILLfactor_update (serow_process) with exact cancellations
-    for k in range(400 if T else 40):
+    for k in range(160 if T else 40):
         n = rng.choice([45, 52, 61, 64, 70, 80])
         c = band_sparse_history("b%d" % k, rng, n, rng.randint(8, 16))
         c.repr_first = k < (20 if T else 4)
@@ -890,7 +891,7 @@ def main():
             judge_component(ck, c, couts[c.cid], qlist, qmeta, hist, pybad, updq, updmeta, luq, lumeta)
     print("# component screening %.1fs, %d queries, %d update replays, %d solves fail the quick multiply-back" % (time.time() - t1, len(qlist), len(updq), len(pybad)), file=sys.stderr)
     t1 = time.time()
-    BUDGET = 900 if T else 200
+    BUDGET = 1500 if T else 200
     # (1) solves that fail the untrusted multiply-back: confirm ONE equation each with the verified checker (tiny queries, first)
     rowq, rowmeta = [], {}
     for k, (c, si, kind, mat, a, x, eq, what) in enumerate(pybad[:40]):
@@ -1130,7 +1131,7 @@ def main():
     ck.cov["rule"] = ("A: LPs (planted, random, degenerate, Beale, near-parallel; <= 9x11 quick) solved by mpq_QSopt_primal/dual under random pricing/scaling, also stopped at an iteration limit and resumed, "
                       "then sequences of mpq_QSopt_pivotin_row/col; sparse 60x90 integer LPs: solve, new objective, re-solve, bound changes, re-solve on one object; after each: basis order + every "
                       "(big LPs: a sample of the) binv rows + tableau rows judged by the extracted check_binv_row / check_tableau_row against the basis matrix assembled from the internal LP dump.  "
-                      "B: mpq_ILLfactor* driven directly: all 2x2 and all (thorough) / 5000 sampled 3x3 matrices over {-1,0,1,2}; structured matrices "
+                      "B: mpq_ILLfactor* driven directly: all 2x2 and 40000 (thorough) / 5000 sampled 3x3 matrices over {-1,0,1,2}; structured matrices "
                       "(permuted triangular, dense block, singletons, near-singular 2^-k, rank-deficient, sparse, dense, arrow; n <= 40 quick / 80 thorough; random DENSE_MIN, P, MAX_K, space multipliers); "
                       "dense integer matrices 30..40 (dense kernel > 25 rows); update histories (<= 30 column replacements: sparse/dense/unit columns, copies and combinations of columns, zero columns; "
                       "small ETAMAX and eta space to force refactorization); 0/+-1 band matrices of dimension 45..80 with 8-16 sparse replacements (sparse path of ILLfactor_update with exact cancellations); "
